@@ -21,6 +21,7 @@ ROWS = [
  (['C11'], 'peek.array.second', F, '25ee326e', 'with two arrays PEEK(VARPTR(B%(1))) returned bytes of the first array\'s record'),
  (['C11', 'C33'], 'draw.x-substring.array', F, '2b9a5f90', 'DRAW "X"+VARPTR$(A$(1)) with two string arrays executed the contents of the other array (Arrays.dereference)'),
  (['C26'], 'lock.containing-accepted', F, '4d4fdd37', 'LOCK #1,3 TO 4 then LOCK #2,2 TO 5 was accepted (only endpoints were tested)'),
+ (['C24'], 'inputstr.crlf-inside-chunk', F, '23cca69d', 'file ab CR LF cd CR LF read with INPUT$(5,#1) gave ab CR CR c (CR LF only folded at chunk start)'),
  (['C25'], 'put.gap.small-file', F, '24257d3f', 'LEN=2, 2-byte file, PUT #1,5 wrote the record into slot 4 (record index compared with byte length)'),
  (['C10', 'C01'], 'escaped.KeyError@strings.py:_retrieve', F, '23d8c7a7', 'RIGHT$("abc",0) / LEFT$(x,0) / MID$ past end / INSTR early return, then a garbage collection: KeyError Dereferencing detached string'),
  (['C22'], 'syntax-error.line.first-item-of-data', F, 'e13220fb', '10 READ A$,B / 20 DATA x / 30 DATA y reported Syntax error in 20 (should name 30)'),
